@@ -9,6 +9,7 @@ Verdict codes: 1 accepted across kinds (coercion); 2 rejected although the kind 
 4 accepted value changed kind beyond the documented widening; 5 raw exception.
 Witness classes: 0 accepted, -1 rejected.
 """
+import collections
 import collections.abc
 import enum
 import typing as t
@@ -90,6 +91,7 @@ TARGETS = {
     'dc_both': (DST, {'list', 'tuple', 'dict', 'mapping'}),
     'lit_str': (Literal['a', 'b'], {'str'}),
     'enum_str': (ES, {'str'}),
+    'counter': (collections.Counter, {'dict', 'mapping'}),     # bare Counter: keys Any, values int
     'enum_int': (EI, {'bool', 'int'}),        # a bool is an int: True == 1 selects EI.ONE
 }
 
@@ -130,7 +132,9 @@ def value(kind, target, i, f, s, alt):
             xs = ['p', 'q']
         return xs if kind == 8 else tuple(xs)
     else:
-        if target == 'dc_struct':
+        if target == 'counter':
+            d = {'a': 1, 'b': 2}
+        elif target == 'dc_struct':
             d = {'a': 1} if alt else {}
         else:
             d = {'a': 'p', 'b': 'q'}
@@ -156,6 +160,8 @@ def wrap_type(ctx, T):
         return {'k': T}
     elif ctx == 'mapval':
         return t.Dict[str, T] if _hashable(T) else None
+    elif ctx == 'mapval_anykey':
+        return t.Dict[t.Any, T] if _hashable(T) else None
     elif ctx == 'union':
         return t.Union[_Never, T] if _hashable(T) else None
     elif ctx == 'optional':
@@ -179,7 +185,7 @@ def wrap_value(ctx, v):
         return [v]
     elif ctx == 'tuple':
         return (1, v)
-    elif ctx in ('dictval', 'mapval'):
+    elif ctx in ('dictval', 'mapval', 'mapval_anykey'):
         return {'k': v}
     elif ctx == 'field':
         return {'f': v}
@@ -195,13 +201,13 @@ def unwrap(ctx, r):
         return r[0]
     elif ctx == 'tuple':
         return r[1]
-    elif ctx in ('dictval', 'mapval'):
+    elif ctx in ('dictval', 'mapval', 'mapval_anykey'):
         return r['k']
     else:
         return r.f
 
 
-CONTEXTS = ('top', 'list', 'tuple', 'dictval', 'mapval', 'union', 'optional', 'field', 'field_pos', 'annotated')
+CONTEXTS = ('top', 'list', 'tuple', 'dictval', 'mapval', 'mapval_anykey', 'union', 'optional', 'field', 'field_pos', 'annotated')
 CTYPE = {}
 for (_tn, (_T, _allowed)) in TARGETS.items():
     for _c in CONTEXTS:
@@ -269,7 +275,7 @@ def body_cell_{tn}_{ctx}(kind: int, i: int, f: float, s: str, alt: bool) -> int:
 # thorough: the full matrix
 _SCALAR = {'int', 'float', 'bool', 'str', 'none', 'bytes'}
 for (_tn, _c) in CTYPE:
-    quick = _c in ('top', 'field', 'field_pos') or (_tn in _SCALAR) or (_tn in ('dc_tuple', 'dc_both', 'list_str') and _c in ('union', 'list'))
+    quick = _c in ('top', 'field', 'field_pos') or (_tn in _SCALAR) or (_c == 'mapval_anykey' and _tn in ('list_str', 'dict_str', 'dc_struct', 'complex')) or (_tn in ('dc_tuple', 'dc_both', 'list_str') and _c in ('union', 'list'))
     # complex(): a symbolic float argument is realised without end -> concrete float for that target
     fpre = "True"
     exec(_T_.format(tn=_tn, ctx=_c, fpre=fpre, tiers=('quick', 'thorough') if quick else ('thorough',)))
